@@ -541,10 +541,8 @@ def postconditions(w, op, nodes_before, pre):
             if n.detached:
                 errs.append(("new-node-detached", "a plainly constructed node is not attached"))
     if k == "detach" and pre["receiver_attached_root"]:
-        n = nodes_before[op[1]]
-        if True:
-            for x in subtree(n):
-                if not x.detached and N.get_any(x.id) is x:
-                    errs.append(("detach-left-attached", "detach() of a root left a node of its subtree attached"))
-                    break
+        for x in subtree(nodes_before[op[1]]):
+            if not x.detached and N.get_any(x.id) is x:
+                errs.append(("detach-left-attached", "detach() of a root left a node of its subtree attached"))
+                break
     return errs
